@@ -466,18 +466,18 @@ impl Reader {
         for (kind, q) in ops {
             match q {
                 Quant::One => {
-                    let sf = out.clone();
+                    let sf: Vec<Arg> = out.first().cloned().into_iter().collect(); // only the first operand is ever consulted
                     self.operand(toks, kind, opname, rtype, &sf, nested, out)?
                 }
                 Quant::ZeroOrOne => {
                     if toks.more() {
-                        let sf = out.clone();
+                        let sf: Vec<Arg> = out.first().cloned().into_iter().collect(); // only the first operand is ever consulted
                         self.operand(toks, kind, opname, rtype, &sf, nested, out)?
                     }
                 }
                 Quant::ZeroOrMore => {
                     while toks.more() {
-                        let sf = out.clone();
+                        let sf: Vec<Arg> = out.first().cloned().into_iter().collect(); // only the first operand is ever consulted
                         self.operand(toks, kind, opname, rtype, &sf, nested, out)?
                     }
                 }
